@@ -639,6 +639,14 @@ class Intrinsics:
         P = self._fpy(P)
         return P.fpy_round(P.ctx_of(ctx), v)
 
+    def s_fpy_rne(self, P, v, digits):
+        from .fpydialect import rne_fix, rne_frac, to_fix
+        if not isinstance(digits, int):
+            raise InterpError('fpy_rne needs a concrete number of digits')
+        if isinstance(v, (int, Fraction)) and not is_z3(v):
+            return rne_frac(Fraction(v), digits)
+        return rne_fix(to_fix(v), digits)
+
     def s_fpy_finite(self, P, ctx, v):
         return True
 
